@@ -62,6 +62,10 @@ var ExprShapes = []string{
 	"a ? ( b ? U ) ? 1",
 	"( a ? b ) ? ( U ? 1 )",
 	"- a ? b [ 1 ] ? f ( U )",
+	// 46-48: in after a ladder
+	"a ? b ? U in ( 1 , 2.5 )",
+	"a ? b in ( 1 ) ? U in ( 2.5 )",
+	"a ? ( b ? U in ( 1 ) )",
 }
 
 func isBinaryOpKind(k parser.TokenKind) bool {
